@@ -1,6 +1,7 @@
 (* C04 - NFC-DEP delivers each payload exactly once, intact, or reports failure.
    Only statements here; proofs are in Proofs/DepCodec.v, DepTarget.v, DepBound.v, DepSrr.v,
-   DepExact.v, DepSafety.v.  The model (Model/Dep.v) is of the repaired code (fixes/c04-*.diff).
+   DepExact.v, DepSafety.v.  The model (Model/Dep.v) is of the tree with the four committed NFC-DEP repairs; the unrepaired
+   request_retransmission (ACK after NAK -> ProtocolError) is modelled as it is.
 
    conversation n fuel ic tc script payloads app timeout release
      runs a real-code-shaped Initiator (exchange over send_dep_req_recv_dep_res with ATN / NAK
@@ -50,15 +51,34 @@ Print Assumptions C04_dep_safety.
 
 (* --- any single lost or corrupted frame per protocol step is recovered transparently: for EVERY script in which each
        faulty round (request or response lost or corrupted) is followed by two fault free rounds, all payload sizes
-       and conversation lengths, the result is exact (exchange time-out at least two response waiting times) --- *)
+       and conversation lengths, the result is exact (exchange time-out at least two response waiting times) -
+       EXCEPT when the corrupted frame is an ACK response during initiator chaining.  The guard excludes that
+       class: no response is corrupted (NC), or no payload of the initiator needs chaining (then no ACK response
+       exists).  Full statement (false of the tree as it is, see the _refuted theorem):
+         forall ..., did_valid did -> ... -> 2 <= timeout -> Sparse script -> ... -> o_ini o = map IOk (firstn (length P) R) /\ ... --- *)
 Theorem C04_dep_single_fault_recovered : forall b106 lri lrt did nad n fuel script P R timeout release,
   did_valid did -> Z.max 0 timeout < Z.of_nat fuel -> 2 <= timeout -> Sparse script ->
+  (NC script \/ Forall (fun x => len x <= ic_miu (mk_icfg b106 lrt did nad)) P) ->
   nonempty_all P -> nonempty_all R -> fits n P -> fits n R -> (length P <= length R)%nat ->
   let o := conversation n fuel (mk_icfg b106 lrt did nad) (mk_tcfg b106 lri did) script P (app_of R) timeout release in
   o_ini o = map IOk (firstn (length P) R) /\
   exists ttail, o_tgt o = map TOk P ++ ttail /\ tail_ok ttail.
 Proof. intros. apply dep_single_fault_recovered_thm; try assumption. apply valid_mk; assumption. Qed.
 Print Assumptions C04_dep_single_fault_recovered.
+
+(* the excluded class is a genuine defect: one corrupted ACK (payload of MIU + 1 = 62 bytes, LR 64, response to the
+   first, chained DEP_REQ corrupted) is not recovered - request_retransmission raises ProtocolError
+   "unrecoverable NFC-DEP transmission error" on the retransmitted ACK.  Not repaired: the behaviour is pinned by
+   tests/test_dep.py::TestInitiator::test_exchange_retransmission_invalid_response. *)
+Theorem C04_dep_single_fault_recovered_refuted :
+  exists script P R,
+    Sparse script /\ nonempty_all P /\ nonempty_all R /\ fits 200 P /\ fits 200 R /\ did_valid None /\
+    o_ini (conversation 200 20 (mk_icfg false 0 None None) (mk_tcfg false 0 None) script P (app_of R) 8 (Some true))
+      = [IErr ProtocolError].
+Proof.
+  exists [(FD, FC); (FD, FD); (FD, FD)], [repeat 1 62], [[2]]. vm_compute. repeat split; repeat constructor; try discriminate; auto.
+Qed.
+Print Assumptions C04_dep_single_fault_recovered_refuted.
 
 (* --- one protocol step (send_dep_req_recv_dep_res) under every script: it fails, or it returns exactly the
        response the target produced when it accepted the request; the target accepts the request at most once --- *)
@@ -84,17 +104,17 @@ Proof. exact decode_ini_dep. Qed.
 Print Assumptions C04_codec_res.
 
 (* non-vacuity: a conversation of five exchanges (beyond the PNI wrap) with chaining in both directions,
-   DID and NAD, a lost request, a lost response and two corrupted responses is completed exactly;
+   DID and NAD, a lost request, a corrupted information response and a lost response is completed exactly;
    a script that exhausts the attention budget ends in a ProtocolError with nothing delivered *)
 Example C04_nonvacuous :
   let P := [repeat 1 130; [2]; [3; 3]; [4]; repeat 5 61] in
   let R := [repeat 17 125; [18]; [19]; repeat 20 62; [21]] in
   let o := conversation 200 20 (mk_icfg true 0 (Some 5) (Some 7)) (mk_tcfg true 0 (Some 5))
-             [(FD, FC); (FD, FD); (FL, FD); (FD, FD); (FD, FD); (FD, FD); (FD, FL); (FD, FD); (FD, FD); (FD, FD); (FD, FC)]
+             [(FL, FD); (FD, FD); (FD, FD); (FD, FD); (FD, FC); (FD, FD); (FD, FD); (FD, FL); (FD, FD); (FD, FD)]
              P (app_of R) 8 (Some true) in
   o_ini o = map IOk R /\ o_tgt o = map TOk P ++ [TNone] /\
   did_valid (Some 5) /\ nonempty_all P /\ fits 200 R /\
-  Sparse [(FD, FC); (FD, FD); (FD, FD); (FL, FD); (FD, FD); (FD, FD); (FD, FD); (FD, FL); (FD, FD); (FD, FD)] /\
+  Sparse [(FL, FD); (FD, FD); (FD, FD); (FD, FD); (FD, FC); (FD, FD); (FD, FD); (FD, FL); (FD, FD); (FD, FD)] /\
   o_ini (conversation 200 20 (mk_icfg false 3 None None) (mk_tcfg false 3 None)
            [(FL, FD); (FL, FD); (FL, FD)] [[1]] (app_of [[2]]) 8 None) = [IErr ProtocolError].
 Proof. vm_compute. repeat split; repeat constructor; try discriminate; auto. Qed.
